@@ -37,6 +37,12 @@ EXC = {c.__name__: c for c in (
     AttributeError, NameError, Exception)}
 
 
+# distinct exception classes that share __name__ (as binascii.Error,
+# shutil.Error, csv.Error ... do) but differ in their base classes
+for _base in (ValueError, OSError, LookupError, Exception):
+    EXC['Error/' + _base.__name__] = type('Error', (_base,), {})
+
+
 class Injected(Exception):
     """Marker mixin is not used: the injected exception is VfA itself so
     that dtml-except VfA handlers can catch it."""
